@@ -382,10 +382,17 @@ func (ci *cindex) count(src string, cid chunk.Id) (count int, err error) {
 
 // rebuildIndex runs the building new index for the source and the chunk provided
 func (ci *cindex) rebuildIndex(ctx context.Context, src string, chk chunk.Chunk, force bool) {
+	// the caller read the chunk list a moment ago; the chunk may have been deleted (TRUNCATE) and closed since then
+	cid, cnt, ok := chunkIdAndCount(chk)
+	if !ok {
+		ci.logger.Warn("rebuildIndex(): the chunk of partition \"", src, "\" was closed (deleted) before its index could be rebuilt")
+		return
+	}
+
 	ci.lock.Lock()
 	var res *chkInfo
 	if sc, ok := ci.journals[src]; ok {
-		idx := sc.findChunkIdx(chk.Id())
+		idx := sc.findChunkIdx(cid)
 		if idx >= 0 {
 			res = sc[idx]
 		}
@@ -414,7 +421,7 @@ func (ci *cindex) rebuildIndex(ctx context.Context, src string, chk chunk.Chunk,
 		res.makeCorrupted()
 	}
 
-	rInfo, root, err := ci.rebuildIndexInt(ctx, chk)
+	rInfo, root, err := ci.rebuildIndexInt(ctx, chk, cid, cnt)
 	if err != nil {
 		res.rwLock.Unlock()
 		return
@@ -447,6 +454,18 @@ func (ci *cindex) rebuildIndex(ctx context.Context, src string, chk chunk.Chunk,
 	}
 }
 
+// chunkIdAndCount returns the id and the number of records of the chunk, or ok == false if the chunk has been
+// closed: the journal controller closes the chunks DeleteChunks removes, and the closed wrapper has no chunk
+// behind it any more (its Id() and Count() dereference nil). Iterator() of a closed chunk returns an error.
+func chunkIdAndCount(chk chunk.Chunk) (cid chunk.Id, cnt uint32, ok bool) {
+	defer func() {
+		if recover() != nil {
+			ok = false
+		}
+	}()
+	return chk.Id(), chk.Count(), true
+}
+
 func (ci *cindex) writeIndexInterval(root Item, ri RecordsInfo, pos0, pos1 int) (Item, error) {
 	if pos0 == pos1 {
 		return root, nil
@@ -464,14 +483,14 @@ func (ci *cindex) writeIndexInterval(root Item, ri RecordsInfo, pos0, pos1 int) 
 
 // rebuildIndexInt allows to check the chunk's records from the chunk remembering
 // their time points and positions in the time index.
-func (ci *cindex) rebuildIndexInt(ctx context.Context, chk chunk.Chunk) (RecordsInfo, Item, error) {
+func (ci *cindex) rebuildIndexInt(ctx context.Context, chk chunk.Chunk, cid chunk.Id, cnt uint32) (RecordsInfo, Item, error) {
 	var rInfo, segmInfo RecordsInfo
 	var root Item
 	var err error
 
-	rInfo.Id = chk.Id()
+	rInfo.Id = cid
 
-	if chk.Count() > 0 {
+	if cnt > 0 {
 		var it chunk.Iterator
 		it, err = chk.Iterator()
 		if err != nil {
